@@ -25,11 +25,14 @@ RULE = ("streams: shapes = every table shape 1..3 columns x 0..2 rows (exhaustiv
         "ODS, NDJSON, fixed text, EBCDIC (RECFM N, F with and without lrecl); plain = workbooks of 1-3 sheets, tables 1-6 columns with "
         "distinct header names sampled from a pool (blanks, punctuation, quotes, commas, tabs, non-ASCII) x 0-8 rows of non-empty "
         "text cells from a pool (quotes, commas, tabs, leading zeros, leading/trailing blanks, Latin-1 and non-Latin-1 letters, a line "
-        "feed, =1+1, TRUE, 1.50, None, dates), written to CSV, TAB, XLSX, ODS, NDJSON (one file per sheet for single-sheet formats) "
+        "feed, the str.splitlines-only line ends U+0085 U+2028 U+2029 in mid-cell, =1+1, TRUE, 1.50, None, dates), written to CSV, TAB, XLSX, ODS, "
+        "NDJSON twice (json.dumps with ensure_ascii True and False) (one file per sheet for single-sheet formats) "
         "and, for a sample, Numbers (consecutive sheets sometimes stored as tables of one Numbers sheet); cobol = the same with "
         "COBOL data names as headers, column widths 1-12, cells of the CP037 repertoire no longer than their column (a third of the "
         "tables with cells filling their columns exactly), additionally written as fixed-width text and EBCDIC and read with the "
-        "schema of a generated copybook (all PIC X(w)); numsep = Numbers sheet names containing the sheet::table separator "
+        "schema of a generated copybook (all PIC X(w)); ctl = plain and cobol workbooks whose cells also draw on the C0 controls VT FF FS GS RS "
+        "(str.splitlines line ends, legal in CSV, JSON, Numbers, fixed text and CP037), written to every format except XLSX and ODS, "
+        "whose writers refuse them; numsep = Numbers sheet names containing the sheet::table separator "
         "(known finding); xls = the read-only XLS sample against the XLSX sample. "
         "Non-trivial = at least one data row (branch not 0); distinct = distinct case lines.")
 TRIVIAL_BRANCHES = [0]
@@ -37,6 +40,9 @@ ASSUMPTIONS = [
     "H_ext (ASSUMED, not proved): each third-party writer/parser pair (csv, openpyxl, pyexcel/pyexcel_ods3, numbers_parser, json, xlrd) "
     "returns the stored table: parser(writer(W)) = the header row followed by the data rows, every cell the written str; tied by this run "
     "for the generated tables only",
+    "domain of H_ext per writer: openpyxl raises IllegalCharacterError and the ODS writer ValueError for C0 control characters "
+    "(VT, FF, FS, GS, RS, ...) in a cell, so tables containing them are not stored as XLSX/ODS; U+0085, U+2028, U+2029 round-trip in "
+    "every third-party format; the ODS pair rewrites quote characters and outer blanks in SHEET names",
     "domain: non-empty text cells written as explicit string cells, no carriage return in a cell (a text-mode file translates it), "
     "no line break in a cell of a fixed-width text file, distinct non-empty column names, distinct sheet names, rectangular tables",
     "a text file is its decoded characters: the UTF-8 codec round trip and the io text layer (universal newlines, line iteration as modelled "
@@ -52,45 +58,51 @@ TRUSTED = [
     "XLS cannot be written offline (no xlwt): covered by one read-only comparison of the sample files, typed cells not compared",
 ]
 
-HEADINGS = ["Customer Name", "ZIP Code", "Amount ($)", "1st", "-x", ".y", "a__b", "a b", "a_b", "é", "名前", "Total %", "x", "y1",
+HEADINGS = ["sep\u2028h", "Customer Name", "ZIP Code", "Amount ($)", "1st", "-x", ".y", "a__b", "a b", "a_b", "é", "名前", "Total %", "x", "y1",
             "X", "None", "name", "position", "a,b", "q\"uote", " lead", "trail ", "tab\there", "#", "2", "Ünï", "it's", "=1+1", "TRUE"]
 COBOL_NAMES = ["COL-A", "B2", "CUST-NM", "ZIP", "AMT", "X", "FLD-1", "FLD-2", "REC-KEY", "Q9", "CITY", "W-99", "LAST-ONE"]
 CELLS = ["1", "00123", "abc", "x y", " lead", "trail ", "é", "ß", "Ñandú", "a,b", "\"q\"", "it's", "tab\there", "=1+1", "TRUE", "FALSE",
          "1.50", "None", "null", "-7", "0", "1e5", "2024-01-01", "12:30", "50%", "$5", "#N/A", "1/2", " ", "  ", "\xa0", "a;b", "a|b",
-         "名", "\U0001f600", "line\nbreak", "long cell with several words, a comma and a \"quoted\" part"]
+         "名", "\U0001f600", "line\nbreak", "long cell with several words, a comma and a \"quoted\" part",
+         # characters str.splitlines() treats as line ends but files, csv and JSON do not: legal unescaped inside a JSON string
+         "a\x85b", "line\u2028sep", "par\u2029sep"]
+# C0 controls that str.splitlines() also splits on.  openpyxl (IllegalCharacterError) and the ODS writer (not XML compatible)
+# refuse them, so tables drawing on this pool are not written to XLSX/ODS (stream ctl).
+CTL_CELLS = ["v\x0bt", "f\x0cf", "fs\x1cx", "gs\x1dx", "rs\x1ey", "\x1c"]
 LATIN = [c for c in CELLS if all(ord(ch) < 256 for ch in c) and "\n" not in c]
 # no quote characters, no leading/trailing blanks: the ODS writer/reader pair rewrites them (a'b comes back as 'a b')
 SHEET_NAMES = ["Sheet1", "Data", "Second sheet", "Ünï", "a.b", "x-y", "S 3", "Q&A", "2024", "(x)", "50%", "名前", "a,b"]
 TABLE_NAMES = ["Table 1", "T", "Tab::2", "Päge"]
 
 
-def _cobol_cell(rng, w, exact):
-    c = rng.choice(LATIN)
+def _cobol_cell(rng, w, exact, pool):
+    c = rng.choice(pool)
     while len(c) > w:
-        c = rng.choice(LATIN) if rng.random() < 0.7 else c[:w]
+        c = rng.choice(pool) if rng.random() < 0.7 else c[:w]
     if exact:
         c = c + rng.choice(["x", "0", "é", "-", " "]) * (w - len(c))
     return c
 
 
-def _table(rng, kind, name, ncols=None, nrows=None):
-    n = ncols if ncols is not None else rng.randint(1, 6)
-    m = nrows if nrows is not None else rng.randint(0, 8)
+def _table(rng, kind, name, ctl=False):
+    n = rng.randint(1, 6)
+    m = rng.randint(1 if ctl else 0, 8)
+    extra = CTL_CELLS * 3 if ctl else []
     if kind == "cobol":
         header = rng.sample(COBOL_NAMES, n)
         widths = [rng.randint(1, 12) for _ in range(n)]
         exact = rng.random() < 0.34
-        rows = [[_cobol_cell(rng, w, exact) for w in widths] for _ in range(m)]
+        rows = [[_cobol_cell(rng, w, exact, LATIN + extra) for w in widths] for _ in range(m)]
         return {"name": name, "header": header, "rows": rows, "widths": widths}
     header = rng.sample(HEADINGS, n)
-    rows = [[rng.choice(CELLS) for _ in range(n)] for _ in range(m)]
+    rows = [[rng.choice(CELLS + extra) for _ in range(n)] for _ in range(m)]
     return {"name": name, "header": header, "rows": rows, "widths": []}
 
 
-def _workbook(rng, kind, with_numbers):
+def _workbook(rng, kind, with_numbers, ctl=False):
     k = rng.choice([1, 1, 2, 3])
     names = rng.sample(SHEET_NAMES, k)
-    tables = [_table(rng, kind, nm) for nm in names]
+    tables = [_table(rng, kind, nm, ctl) for nm in names]
     numbers = []
     if with_numbers:
         # consecutive abstract sheets may share one Numbers sheet, as differently named tables
@@ -101,7 +113,10 @@ def _workbook(rng, kind, with_numbers):
             for j in range(share):
                 numbers.append([names[i], tnames[j]])
             i += share
-    return {"kind": kind, "tables": tables, "numbers": numbers}
+    wb = {"kind": kind, "tables": tables, "numbers": numbers}
+    if ctl:
+        wb["skip"] = ["xlsx", "ods"]
+    return wb
 
 
 def inputs(ctx):
@@ -121,6 +136,10 @@ def inputs(ctx):
         yield "plain", _workbook(rng, "plain", i < n_num // 2)
     for i in range(n_cobol):
         yield "cobol", _workbook(rng, "cobol", i < n_num // 2)
+    n_ctl, n_ctl_num = (10, 3) if quick else (60, 15)
+    for kind in ("plain", "cobol"):
+        for i in range(n_ctl):
+            yield "ctl", _workbook(rng, kind, i < n_ctl_num, ctl=True)
     for i in range(3 if quick else 12):
         wb = _workbook(rng, "plain", False)
         wb["numbers"] = [[t["name"], "T"] for t in wb["tables"]]
@@ -144,10 +163,10 @@ def _write_csv(path, t, **kw):
             w.writerow(r)
 
 
-def _write_ndjson(path, t):
+def _write_ndjson(path, t, ensure_ascii):
     with open(path, "w", newline="", encoding="utf-8") as f:
         for r in t["rows"]:
-            f.write(json.dumps(dict(zip(t["header"], r)), ensure_ascii=False) + "\n")
+            f.write(json.dumps(dict(zip(t["header"], r)), ensure_ascii=ensure_ascii) + "\n")
 
 
 def _write_xlsx(path, tables):
@@ -281,8 +300,10 @@ def _observe_tables(inp, folder):
     cobol = inp["kind"] == "cobol"
     formats = []
 
+    skip = inp.get("skip", [])
+
     def want(name):
-        return only is None or name in only
+        return (only is None or name in only) and name not in skip
 
     def per_table(fmt, suffix, write, make_wb, bind_for):
         files = []
@@ -311,7 +332,10 @@ def _observe_tables(inp, folder):
         formats.append([4, [[[], _read(lambda: open_workbook(path), _bind_header, headers)]]])
         gc.collect()                                      # numbers_parser keeps the file open until collected
     if want("ndjson"):
-        per_table(6, ".ndjson", lambda p, t: _write_ndjson(p, t), open_workbook, lambda t: _bind_names([t["header"]]))
+        # both spellings of non-ASCII text: escaped (ensure_ascii, the json default) and as the characters themselves
+        for ensure_ascii in (True, False):
+            per_table(6, ".ndjson", lambda p, t: _write_ndjson(p, t, ensure_ascii), open_workbook,
+                      lambda t: _bind_names([t["header"]]))
     if cobol and want("fixed"):
         def write_text(p, t):
             text = _fixed_text(t)
